@@ -92,56 +92,62 @@ PROPS = {
     },
     "C06": {
         "props_module": "RedbModel.Props.C06",
+        "props_modules_extra": ["RedbModel.Props.Life2"],
         "streams": [("history", ["--focus", "c06"], "history")],
         "rule": 'a case is one random history of whole-database steps (write transactions of every durability / two-phase / quick-repair mix with table, multimap, delete-table and savepoint create/restore/delete operations, ending in commit, abort or drop; begin_read / drop reader; drop savepoint; clean reopen; crash-reopen; compact; check_integrity; list savepoints), page 512..4096, region 64 KiB..default, cache 0..1 GiB; after every step: committed contents vs recorded commit point, every live reader re-read vs its start contents, page accounting from the snapshot hooks, fingerprints of every pinned tree, `hist state` line for the Lean monitor; histories end with a quiescence check; distinct by hash of lines, non-trivial if completed' + " (generator weighted for C06)",
-        "trusted_base": BASE_TRUST + ["modelled, not verified: the page life-cycle of transactions.rs / transaction_tracker.rs / page_manager.rs as the ownership monitor Model/Lifecycle.lean (ownOk, pinOk, moveOk, stepOk, abortOk); owner sets are computed with redb's own tree traversal through the read-only hook (the Lean format decoder checks the same images independently in C10)"],
+        "trusted_base": BASE_TRUST + ["modelled, not verified: the page life-cycle of transactions.rs / transaction_tracker.rs / page_manager.rs twice: as the ownership monitor Model/Lifecycle.lean (ownOk, pinOk, moveOk, stepOk, abortOk) and as the algorithmic state machine Model/Life2.lean (commit pipeline beginWrite / savepoint ops / data step / merge / release / publish / epilogue, non-durable reclaim, abort, readers, savepoints, reopen, crash) whose inputs are the observed tree diffs (the B-tree layer is an input, under a stated guard) and one oracle input (which lost system pages a quick-repair commit recorded before the allocator snapshot); owner sets are computed with redb's own tree traversal through the read-only hook (the Lean format decoder checks the same images independently in C10)"],
         "assumptions": ["single-threaded histories (interleavings are C03/C16)", "preemption inside lock-protected blocks and weak-memory effects are not modelled"],
-        "explanation": 'Lean: the proven monitor (exactly-one-owner reading of ownOk, pinned pages stay allocated and are never re-owned over any accepted trace, released pages are unpinned); every observed state/transition of the real database is fed to the monitor; oracle: exact page accounting, pins inside the allocated set, pinned page bytes unchanged, return to level at quiescence, region tracker never hides free space',
+        "explanation": 'Lean: algorithmic model (Props/Life2.lean): Inv holds initially and is preserved by every guarded step, hence in every reachable state (life2_inv_reachable); one owner per allocated page, pinned snapshots frozen, durable image intact, no page of a pin is ever handed out by a commit or its epilogue, three empty durable commits drain every record (bound tight); correspondence by prediction: the model computes the next allocated set, records, pins and tracker counts from the step and the observed tree diff and must equal what the hooks show; the proven monitor (exactly-one-owner reading of ownOk, pinned pages stay allocated and are never re-owned over any accepted trace, released pages are unpinned); every observed state/transition of the real database is fed to the monitor; oracle: exact page accounting, pins inside the allocated set, pinned page bytes unchanged, return to level at quiescence, region tracker never hides free space',
         "timeout": 7000,
     },
     "C02": {
         "props_module": "RedbModel.Props.C02",
+        "props_modules_extra": ["RedbModel.Props.Life2"],
         "streams": [("history", ["--focus", "c02"], "history"), ("sched", ["--focus", "c02"], "sched")],
         "rule": 'a case is one random history of whole-database steps (write transactions of every durability / two-phase / quick-repair mix with table, multimap, delete-table and savepoint create/restore/delete operations, ending in commit, abort or drop; begin_read / drop reader; drop savepoint; clean reopen; crash-reopen; compact; check_integrity; list savepoints), page 512..4096, region 64 KiB..default, cache 0..1 GiB; after every step: committed contents vs recorded commit point, every live reader re-read vs its start contents, page accounting from the snapshot hooks, fingerprints of every pinned tree, `hist state` line for the Lean monitor; histories end with a quiescence check; distinct by hash of lines, non-trivial if completed' + " (generator weighted for C02); second stream: the forced two-thread schedules of C03 restricted to pairs in which one call is a read or a reader drop (each schedule one evaluation)",
-        "trusted_base": BASE_TRUST + ["modelled, not verified: the page life-cycle of transactions.rs / transaction_tracker.rs / page_manager.rs as the ownership monitor Model/Lifecycle.lean (ownOk, pinOk, moveOk, stepOk, abortOk); owner sets are computed with redb's own tree traversal through the read-only hook (the Lean format decoder checks the same images independently in C10)"],
+        "trusted_base": BASE_TRUST + ["modelled, not verified: the page life-cycle of transactions.rs / transaction_tracker.rs / page_manager.rs twice: as the ownership monitor Model/Lifecycle.lean (ownOk, pinOk, moveOk, stepOk, abortOk) and as the algorithmic state machine Model/Life2.lean (commit pipeline beginWrite / savepoint ops / data step / merge / release / publish / epilogue, non-durable reclaim, abort, readers, savepoints, reopen, crash) whose inputs are the observed tree diffs (the B-tree layer is an input, under a stated guard) and one oracle input (which lost system pages a quick-repair commit recorded before the allocator snapshot); owner sets are computed with redb's own tree traversal through the read-only hook (the Lean format decoder checks the same images independently in C10)"],
         "assumptions": ["histories are single-threaded; thread interleavings of reader and writer calls are covered by the forced schedules of the C03 harness restricted to reader-vs-anything pairs (one preemption per schedule)", "preemption inside lock-protected blocks and weak-memory effects are not modelled"],
-        "explanation": 'Lean: pinned snapshot pages never change owner except into later pending-free records, over whole traces; harness: every live read transaction is re-read completely after every later step of any kind and compared with the contents at its begin_read; byte fingerprint of its tree unchanged',
+        "explanation": 'Lean: algorithmic model: life2_pinned_frozen / life2_no_early_reuse for every reachable state (pages of the snapshot of a reader stay allocated and are not handed out); pinned snapshot pages never change owner except into later pending-free records, over whole traces; harness: every live read transaction is re-read completely after every later step of any kind and compared with the contents at its begin_read; byte fingerprint of its tree unchanged',
         "timeout": 7000,
     },
     "C05": {
         "props_module": "RedbModel.Props.C05",
+        "props_modules_extra": ["RedbModel.Props.Life2"],
         "streams": [("history", ["--focus", "c05"], "history")],
         "rule": 'a case is one random history of whole-database steps (write transactions of every durability / two-phase / quick-repair mix with table, multimap, delete-table and savepoint create/restore/delete operations, ending in commit, abort or drop; begin_read / drop reader; drop savepoint; clean reopen; crash-reopen; compact; check_integrity; list savepoints), page 512..4096, region 64 KiB..default, cache 0..1 GiB; after every step: committed contents vs recorded commit point, every live reader re-read vs its start contents, page accounting from the snapshot hooks, fingerprints of every pinned tree, `hist state` line for the Lean monitor; histories end with a quiescence check; distinct by hash of lines, non-trivial if completed' + " (generator weighted for C05)",
-        "trusted_base": BASE_TRUST + ["modelled, not verified: the page life-cycle of transactions.rs / transaction_tracker.rs / page_manager.rs as the ownership monitor Model/Lifecycle.lean (ownOk, pinOk, moveOk, stepOk, abortOk); owner sets are computed with redb's own tree traversal through the read-only hook (the Lean format decoder checks the same images independently in C10)"],
+        "trusted_base": BASE_TRUST + ["modelled, not verified: the page life-cycle of transactions.rs / transaction_tracker.rs / page_manager.rs twice: as the ownership monitor Model/Lifecycle.lean (ownOk, pinOk, moveOk, stepOk, abortOk) and as the algorithmic state machine Model/Life2.lean (commit pipeline beginWrite / savepoint ops / data step / merge / release / publish / epilogue, non-durable reclaim, abort, readers, savepoints, reopen, crash) whose inputs are the observed tree diffs (the B-tree layer is an input, under a stated guard) and one oracle input (which lost system pages a quick-repair commit recorded before the allocator snapshot); owner sets are computed with redb's own tree traversal through the read-only hook (the Lean format decoder checks the same images independently in C10)"],
         "assumptions": ["single-threaded histories (interleavings are C03/C16)", "preemption inside lock-protected blocks and weak-memory effects are not modelled"],
-        "explanation": 'Lean: an abandoned transaction (abortOk) leaves allocation, owners, records and ids unchanged and keeps pins valid; harness: abort / drop / poisoned commit (panicking predicate) after arbitrary bodies incl. savepoint operations; next contents, savepoint list and page accounting equal the state before',
+        "explanation": 'Lean: algorithmic model: life2_abort_no_trace (abort restores all 18 bookkeeping fields); an abandoned transaction (abortOk) leaves allocation, owners, records and ids unchanged and keeps pins valid; harness: abort / drop / poisoned commit (panicking predicate) after arbitrary bodies incl. savepoint operations; next contents, savepoint list and page accounting equal the state before',
         "timeout": 7000,
     },
     "C07": {
         "props_module": "RedbModel.Props.C07",
+        "props_modules_extra": ["RedbModel.Props.Life2"],
         "streams": [("history", ["--focus", "c07"], "history"), ("crash", [], "crash", ("thorough",))],
         "rule": 'a case is one random history of whole-database steps (write transactions of every durability / two-phase / quick-repair mix with table, multimap, delete-table and savepoint create/restore/delete operations, ending in commit, abort or drop; begin_read / drop reader; drop savepoint; clean reopen; crash-reopen; compact; check_integrity; list savepoints), page 512..4096, region 64 KiB..default, cache 0..1 GiB; after every step: committed contents vs recorded commit point, every live reader re-read vs its start contents, page accounting from the snapshot hooks, fingerprints of every pinned tree, `hist state` line for the Lean monitor; histories end with a quiescence check; distinct by hash of lines, non-trivial if completed' + " (generator weighted for C07)",
-        "trusted_base": BASE_TRUST + ["modelled, not verified: the page life-cycle of transactions.rs / transaction_tracker.rs / page_manager.rs as the ownership monitor Model/Lifecycle.lean (ownOk, pinOk, moveOk, stepOk, abortOk); owner sets are computed with redb's own tree traversal through the read-only hook (the Lean format decoder checks the same images independently in C10)"],
+        "trusted_base": BASE_TRUST + ["modelled, not verified: the page life-cycle of transactions.rs / transaction_tracker.rs / page_manager.rs twice: as the ownership monitor Model/Lifecycle.lean (ownOk, pinOk, moveOk, stepOk, abortOk) and as the algorithmic state machine Model/Life2.lean (commit pipeline beginWrite / savepoint ops / data step / merge / release / publish / epilogue, non-durable reclaim, abort, readers, savepoints, reopen, crash) whose inputs are the observed tree diffs (the B-tree layer is an input, under a stated guard) and one oracle input (which lost system pages a quick-repair commit recorded before the allocator snapshot); owner sets are computed with redb's own tree traversal through the read-only hook (the Lean format decoder checks the same images independently in C10)"],
         "assumptions": ["single-threaded histories (interleavings are C03/C16)", "preemption inside lock-protected blocks and weak-memory effects are not modelled"],
-        "explanation": 'Lean: savepoint-pinned pages are kept over whole traces and can re-enter the data tree only through a restore of a savepoint that still pins them; harness: contents after restore+commit equal the contents recorded at creation, later savepoints invalid, persistent savepoints listed across reopen and crash, no leak at quiescence',
+        "explanation": 'Lean: algorithmic model: life2_restore (restore + commit: data tree = the pages of the savepoint, later savepoints invalid, the pages of the savepoint still held); savepoint-pinned pages are kept over whole traces and can re-enter the data tree only through a restore of a savepoint that still pins them; harness: contents after restore+commit equal the contents recorded at creation, later savepoints invalid, persistent savepoints listed across reopen and crash, no leak at quiescence',
         "timeout": 7000,
     },
     "C11": {
         "props_module": "RedbModel.Props.C11",
+        "props_modules_extra": ["RedbModel.Props.Life2"],
         "streams": [("history", ["--focus", "c11"], "history"), ("crash", [], "crash", ("thorough",))],
         "rule": 'a case is one random history of whole-database steps (write transactions of every durability / two-phase / quick-repair mix with table, multimap, delete-table and savepoint create/restore/delete operations, ending in commit, abort or drop; begin_read / drop reader; drop savepoint; clean reopen; crash-reopen; compact; check_integrity; list savepoints), page 512..4096, region 64 KiB..default, cache 0..1 GiB; after every step: committed contents vs recorded commit point, every live reader re-read vs its start contents, page accounting from the snapshot hooks, fingerprints of every pinned tree, `hist state` line for the Lean monitor; histories end with a quiescence check; distinct by hash of lines, non-trivial if completed' + " (generator weighted for C11)",
-        "trusted_base": BASE_TRUST + ["modelled, not verified: the page life-cycle of transactions.rs / transaction_tracker.rs / page_manager.rs as the ownership monitor Model/Lifecycle.lean (ownOk, pinOk, moveOk, stepOk, abortOk); owner sets are computed with redb's own tree traversal through the read-only hook (the Lean format decoder checks the same images independently in C10)"],
+        "trusted_base": BASE_TRUST + ["modelled, not verified: the page life-cycle of transactions.rs / transaction_tracker.rs / page_manager.rs twice: as the ownership monitor Model/Lifecycle.lean (ownOk, pinOk, moveOk, stepOk, abortOk) and as the algorithmic state machine Model/Life2.lean (commit pipeline beginWrite / savepoint ops / data step / merge / release / publish / epilogue, non-durable reclaim, abort, readers, savepoints, reopen, crash) whose inputs are the observed tree diffs (the B-tree layer is an input, under a stated guard) and one oracle input (which lost system pages a quick-repair commit recorded before the allocator snapshot); owner sets are computed with redb's own tree traversal through the read-only hook (the Lean format decoder checks the same images independently in C10)"],
         "assumptions": ["single-threaded histories (interleavings are C03/C16)", "preemption inside lock-protected blocks and weak-memory effects are not modelled"],
-        "explanation": 'Lean: after any open the accepted state satisfies the exactly-one-owner accounting and all pins/durable pages are allocated; crash transitions only need the durable id to be monotone; harness: clean reopen, crash-reopen (repair paths), check_integrity Ok(true) and contents unchanged, further transactions after reopen under the same monitor',
+        "explanation": 'Lean: algorithmic model: life2_crash (crash-reopen yields the durable image with allocated = owned, nothing unpersisted left); after any open the accepted state satisfies the exactly-one-owner accounting and all pins/durable pages are allocated; crash transitions only need the durable id to be monotone; harness: clean reopen, crash-reopen (repair paths), check_integrity Ok(true) and contents unchanged, further transactions after reopen under the same monitor',
         "timeout": 7000,
     },
     "C13": {
         "props_module": "RedbModel.Props.C13",
+        "props_modules_extra": ["RedbModel.Props.Life2"],
         "streams": [("history", ["--focus", "c13"], "history"), ("crash", [], "crash", ("thorough",))],
         "rule": 'a case is one random history of whole-database steps (write transactions of every durability / two-phase / quick-repair mix with table, multimap, delete-table and savepoint create/restore/delete operations, ending in commit, abort or drop; begin_read / drop reader; drop savepoint; clean reopen; crash-reopen; compact; check_integrity; list savepoints), page 512..4096, region 64 KiB..default, cache 0..1 GiB; after every step: committed contents vs recorded commit point, every live reader re-read vs its start contents, page accounting from the snapshot hooks, fingerprints of every pinned tree, `hist state` line for the Lean monitor; histories end with a quiescence check; distinct by hash of lines, non-trivial if completed' + " (generator weighted for C13)",
-        "trusted_base": BASE_TRUST + ["modelled, not verified: the page life-cycle of transactions.rs / transaction_tracker.rs / page_manager.rs as the ownership monitor Model/Lifecycle.lean (ownOk, pinOk, moveOk, stepOk, abortOk); owner sets are computed with redb's own tree traversal through the read-only hook (the Lean format decoder checks the same images independently in C10)"],
+        "trusted_base": BASE_TRUST + ["modelled, not verified: the page life-cycle of transactions.rs / transaction_tracker.rs / page_manager.rs twice: as the ownership monitor Model/Lifecycle.lean (ownOk, pinOk, moveOk, stepOk, abortOk) and as the algorithmic state machine Model/Life2.lean (commit pipeline beginWrite / savepoint ops / data step / merge / release / publish / epilogue, non-durable reclaim, abort, readers, savepoints, reopen, crash) whose inputs are the observed tree diffs (the B-tree layer is an input, under a stated guard) and one oracle input (which lost system pages a quick-repair commit recorded before the allocator snapshot); owner sets are computed with redb's own tree traversal through the read-only hook (the Lean format decoder checks the same images independently in C10)"],
         "assumptions": ["single-threaded histories (interleavings are C03/C16)", "preemption inside lock-protected blocks and weak-memory effects are not modelled"],
-        "explanation": 'Lean: accounting and pin safety across the compaction commits; harness: compact() refused iff readers/savepoints exist, contents unchanged, file not larger, accounting exact afterwards',
+        "explanation": 'Lean: algorithmic model: life2_compact (Inv and no-pins preserved by the abort / durable-commit sequences; a completed compact() is checked by its postcondition, not predicted step by step); accounting and pin safety across the compaction commits; harness: compact() refused iff readers/savepoints exist, contents unchanged, file not larger, accounting exact afterwards',
         "timeout": 7000,
     },
     "C01": {
